@@ -56,7 +56,9 @@ ArgPool == <<
   [name |-> "X",  sh |-> <<3>>,    dt |-> "f"],   \* 9   also coefficient vector of a field on the mesh
   [name |-> "Y",  sh |-> <<3>>,    dt |-> "f"],   \* 10
   [name |-> "n",  sh |-> <<>>,     dt |-> "i"],   \* 11
-  [name |-> "j",  sh |-> <<>>,     dt |-> "i"] >> \* 12
+  [name |-> "j",  sh |-> <<>>,     dt |-> "i"],   \* 12
+  [name |-> "w",  sh |-> <<2, 2, 2>>, dt |-> "f"], \* 13  rank 3 (multi-index ravelling in factor / Monomial)
+  [name |-> "dw", sh |-> <<2, 2, 2>>, dt |-> "f"] >> \* 14
 NArgs == Len(ArgPool)
 ArgIds == 1..NArgs
 Peers(a) == {b \in ArgIds : b # a /\ ArgPool[b].sh = ArgPool[a].sh /\ ArgPool[b].dt = ArgPool[a].dt}
@@ -91,7 +93,7 @@ SeqTab(G(_), i, n, acc) == IF i > n THEN acc ELSE SeqTab(G, i + 1, n, Append(acc
 Force(a) == [sh |-> a.sh, v |-> SeqTab(LAMBDA i : a.v[i], 1, Prod(a.sh), <<>>)]
 
 \* argument values: three assignments (g = 1, 2, 3) and an alternative (g = 4) for dependence tests; exact dyadics
-ValOf(g, a, kk) == LET num == ((3 * a + 5 * g + 7 * kk) % 7) - 2
+ValOf(g, a, kk) == LET num == ((3 * a + 5 * g + 3 * kk) % 7) - 2      \* (varies with the position kk: no symmetric arrays)
                        den == IF ArgPool[a].dt = "f" /\ (a + g + kk) % 2 = 0 THEN 2 ELSE 1
                    IN DOf(Norm(num, den))
 ArgValRaw(g, a) == [sh |-> ArgPool[a].sh, v |-> SeqTab(LAMBDA kk : ValOf(g, a, kk), 1, Prod(ArgPool[a].sh), <<>>)]
@@ -298,7 +300,8 @@ ValueChoices(kind, x) ==
       [] kind \in {"arg", "scale", "sq", "mix"} -> {<<y, 0>> : y \in Peers(x) \cap F.peers}
       [] kind = "sum2" -> {yz \in (Peers(x) \cap F.peers) \X (Peers(x) \cap F.peers) : yz[1] < yz[2]}
       [] kind = "contract" -> IF ArgPool[x].dt # "f" THEN {}
-                              ELSE IF ArgPool[x].sh \in {<<2>>, <<3>>} THEN {<<y, 0>> : y \in Peers(x) \cap F.peers} ELSE {<<0, 0>>}
+                              ELSE IF ArgPool[x].sh \in {<<2>>, <<3>>} THEN {<<y, 0>> : y \in Peers(x) \cap F.peers}
+                              ELSE IF Len(ArgPool[x].sh) = 3 THEN {} ELSE {<<0, 0>>}
 ValueDeg(nodes) == nodes[Len(nodes)].dg
 ValueFv(nodes) == nodes[Len(nodes)].fv
 
